@@ -176,15 +176,19 @@ def optionsOf : Obj → Option Obj
     | _ => none
   | _ => none
 
+/-- the chunk entry of a flattened pair list: the value of the first `chunk` key -/
+def chunkOfKVs (kvs : Objs) : Option Bytes :=
+  match (pairs (objsToList kvs)).find? (fun (k, _) =>
+      match k with | .str ks => ks == sChunk | .bin ks => ks == sChunk | _ => false) with
+  | some (_, .str c) => some c
+  | some (_, .bin c) => some c
+  | _ => none
+
 /-- the chunk id the specification assigns to a message: the value of the `chunk` key of its
-option map (first occurrence), if the message has an option map with such a key -/
+option map, if the message has an option map with such a key -/
 def chunkOf (o : Obj) : Option Bytes :=
   match optionsOf o with
-  | some (.map kvs) =>
-    match (pairs (objsToList kvs)).find? (fun (k, _) => match k with | .str ks => ks == sChunk | .bin ks => ks == sChunk | _ => false) with
-    | some (_, .str c) => some c
-    | some (_, .bin c) => some c
-    | _ => none
+  | some (.map kvs) => chunkOfKVs kvs
   | _ => none
 
 end FV.Spec
